@@ -1,20 +1,21 @@
 /* VF
 {
  "defines": ["-DJANET_NO_NANBOX"],
- "units": ["fiber.c", "value.c", "wrap.c", "state.c", "util.c", "tuple.c", "array.c", "buffer.c", "table.c", "struct.c", "string.c"],
+ "units": ["vector.c", "fiber.c", "value.c", "wrap.c", "state.c", "util.c", "tuple.c", "array.c", "buffer.c", "table.c", "struct.c", "string.c"],
  "remove_bodies": ["janet_sandbox", "janet_sandbox_assert", "janet_init", "janet_deinit", "janet_in", "janet_get", "janet_put", "janet_next", "janet_length", "janet_lengthv", "janet_getindex", "janet_putindex", "janet_compare", "janet_equals", "janet_hash", "janet_call", "janet_pcall", "janet_symbol", "janet_csymbol", "janet_to_string", "janet_to_string_b", "janet_table_put", "janet_table_get", "janet_struct_put", "janet_struct_end", "janet_struct_begin", "janet_continue", "janet_continue_signal"],
- "no_body_deny_re": "^(janet_fiber$|janet_fiber_reset|janet_fiber_funcframe|janet_env_valid|unmarshal_one|readint|readnat)",
+ "remove_bodies_after_link": ["unmarshal_one"],
+ "allow_no_body": ["unmarshal_one"],
+ "no_body_deny_re": "^(janet_v_|janet_s(re|m)alloc|janet_fiber$|janet_fiber_reset|janet_fiber_funcframe|janet_env_valid|unmarshal_one_env|readint|readnat)",
  "backend": "cadical",
  "unwind": 12,
  "unwind_functions": {"harness": 34},
  "timeout": 300,
  "mem_gb": 4,
- "tier": "thorough",
- "cases": [{"name": "foreign_fiber", "D": ["-DVF_OWNED=0"]}, {"name": "matching_frame", "D": ["-DVF_OWNED=1"]}],
- "functions_encoded": ["marsh.c: unmarshal_one_env, unmarshal_one (reference case), readint, readnat", "fiber.c: janet_env_valid, janet_fiber"],
+ "cases": [{"name": "read_on_stack", "D": ["-DVF_PART=0", "-DVF_OFFSTACK=0"]}, {"name": "read_off_stack", "D": ["-DVF_PART=0", "-DVF_OFFSTACK=1"]}, {"name": "valid_foreign_fiber", "D": ["-DVF_PART=1", "-DVF_OWNED=0"]}, {"name": "valid_matching_frame", "D": ["-DVF_PART=1", "-DVF_OWNED=1"]}],
+ "functions_encoded": ["marsh.c: unmarshal_one_env, readint, readnat", "fiber.c: janet_env_valid, janet_fiber"],
  "asserted": ["U2: a closure environment read from an untrusted image with ARBITRARY offset and length integers that names a fiber carries the untrusted marker (offset <= 0) when unmarshal_one_env returns, so the interpreter's janet_env_valid check cannot be skipped", "U4: the real janet_env_valid, run on that environment, either rejects it and leaves an EMPTY environment (length 0, no values) or accepts it only when offset is the frame of the fiber that owns this very environment and length equals that frame's slot count, so offset+index stays inside the fiber's stack for every index below length", "an off-stack environment has a value array of exactly length > 0 slots"],
- "bounds": ["offset and length: any 32-bit integers (5-byte encoding); target fiber: one real frame with 2 slots"],
- "stubs": ["GC allocation = malloc", "janet_panic family = end of path", "the fiber is supplied through the image's reference table (real LB_REFERENCE path)"],
+ "bounds": ["on-stack cases: offset and length any 32-bit integers (5-byte encoding); off_stack case: offset 0, length 0..3; target fiber: two frames with 2 and 3 slots; the owning frame, if any, chosen by the solver"],
+ "stubs": ["GC and scratch allocation = malloc/realloc", "janet_panic family = end of path", "unmarshal_one (the nested value reader) has no body: it yields an ARBITRARY value, of which janet_asserttype lets only fibers pass (read_* cases); the valid_* cases start from an ARBITRARY environment satisfying what the read_* cases establish (offset < 0, length >= 0) that names a fiber whose stack holds two frames (2 and 3 slots), laid out directly"],
  "outside_claim": ["fibers that are themselves forged (unmarshal_one_fiber validation)", "funcdef field validation", "the interpreter's use of the environment after validation (thorough harness env_unmarshal)"]
 }
 VF */
@@ -34,6 +35,9 @@ void *janet_gcalloc(enum JanetMemoryType type, size_t size) {
     p->flags = type; p->data.next = NULL;
     return p;
 }
+void *janet_srealloc(void *p, size_t n) { void *q = realloc(p, n); VF_ASSUME(q != NULL); return q; }
+void *janet_smalloc(size_t n) { void *q = malloc(n); VF_ASSUME(q != NULL); return q; }
+void janet_sfree(void *p) { free(p); }
 void janet_gcpressure(size_t s) { (void) s; }
 void janet_collect(void) { }
 void janet_fiber_did_resume(JanetFiber *fiber) { (void) fiber; }
@@ -44,51 +48,77 @@ int _setjmp(jmp_buf env) { (void) env; return 0; }
 
 static uint32_t tbc[1] = { JOP_RETURN_NIL };
 static JanetFuncDef tdef;
-static struct { JanetFunction f; JanetFuncEnv *envs[1]; } tfn;
+static JanetFunction *tfnp;
 
 void harness(void) {
     janet_vm.traversal = NULL; janet_vm.traversal_base = NULL; janet_vm.traversal_top = NULL;
     janet_vm.stackn = 0; janet_vm.fiber = NULL; janet_vm.root_fiber = NULL; janet_vm.signal_buf = NULL; janet_vm.return_reg = NULL;
     janet_vm.coerce_error = 0; janet_vm.gc_interval = 0x7FFFFFFF; janet_vm.next_collection = 0; janet_vm.gc_suspend = 1; janet_vm.auto_suspend = 0;
-    /* the fiber the image's environment points at: one real frame of a 2-slot function */
-    tdef.bytecode = tbc; tdef.bytecode_length = 1; tdef.slotcount = 2; tdef.arity = 0; tdef.min_arity = 0; tdef.max_arity = 0;
-    tfn.f.def = &tdef;
-    JanetFiber *tf = janet_fiber(&tfn.f, 16, 0, NULL);
-    VF_ASSERT(tf != NULL, "target fiber");
-    for (int i = 0; i < 2; i++) tf->data[tf->frame + i] = janet_wrap_number(10 + i);
-    /* untrusted image bytes of one funcenv: offset, length (arbitrary), then a reference to the fiber */
+#if VF_PART == 0
+    /* U2: read one funcenv from untrusted bytes: offset, length (arbitrary), then a nested value */
     uint8_t img[13];
     img[0] = LB_INTEGER; for (int i = 1; i < 5; i++) img[i] = vf_u8();
     img[5] = LB_INTEGER; for (int i = 6; i < 10; i++) img[i] = vf_u8();
     img[10] = LB_REFERENCE; img[11] = 0; img[12] = 0;
+#if !VF_OFFSTACK
+    VF_ASSUME(img[1] < 128 && (img[1] | img[2] | img[3] | img[4]) != 0);      /* offset > 0: the on-stack variant */
+#else
+    VF_ASSUME(img[1] == 0 && img[2] == 0 && img[3] == 0 && img[4] == 0);      /* offset 0 */
+    VF_ASSUME(img[6] == 0 && img[7] == 0 && img[8] == 0 && img[9] <= 3);      /* length 0..3 */
+#endif
     UnmarshalState st; memset(&st, 0, sizeof(st));
     st.start = img; st.end = img + 12;
-    st.lookup = NULL; janet_v_push(st.lookup, janet_wrap_fiber(tf));
+#ifdef VF_REPLAY
+    /* natively unmarshal_one is the real reader: let the image's reference resolve to some fiber */
+    janet_v_push(st.lookup, janet_wrap_fiber((JanetFiber *) calloc(1, sizeof(JanetFiber))));
+#endif
     JanetFuncEnv *env = NULL;
     VF_WITNESS("env image about to be read");
     (void) unmarshal_one_env(&st, img, &env, 0);
     VF_ASSERT(env != NULL, "env produced");
-    /* U2: whatever the image said, an environment that names a fiber is marked untrusted */
-    VF_ASSERT(env->offset <= 0, "environment read from an image names a fiber stack but is not marked untrusted");
-    if (env->offset == 0) {
-        VF_ASSERT(env->length > 0 && env->as.values != NULL, "off-stack environment without values");
-        VF_WITNESS("off-stack variant");
-        return;
-    }
-    int32_t claimed = env->length;
-    (void) claimed;
+#if !VF_OFFSTACK
+    VF_ASSERT(env->offset < 0, "environment read from an image names a fiber stack but is not marked untrusted");
+    VF_ASSERT(env->length >= 0, "negative length");
+    VF_WITNESS("on-stack variant");
+#else
+    VF_ASSERT(env->offset == 0 && env->length > 0 && env->length <= 3 && env->as.values != NULL, "off-stack environment without values");
+    VF_WITNESS("off-stack variant");
+#endif
+#else
+    /* U4: one janet_env_valid step from an ARBITRARY untrusted environment naming a fiber with two frames
+     * (2 slots at stack offset 4, 3 slots at offset 10); the fiber stack is laid out directly, frames typed as frames */
+    static struct { JanetStackFrame fa; Janet pada[2]; Janet sa[2]; JanetStackFrame fb; Janet padb[2]; Janet sb[3]; } stk;   /* a frame takes JANET_FRAME_SIZE = 4 slots */
+    static JanetFuncDef defa, defb;
+    static JanetFiber fib;
+    JanetFunction *fna = malloc(sizeof(JanetFunction)), *fnb = malloc(sizeof(JanetFunction));
+    VF_ASSUME(fna != NULL && fnb != NULL);
+    defa.slotcount = 2; defb.slotcount = 3; fna->def = &defa; fnb->def = &defb;
+    stk.fa.func = fna; stk.fa.prevframe = 0; stk.fa.env = NULL;
+    stk.fb.func = fnb; stk.fb.prevframe = 4; stk.fb.env = NULL;
+    JanetFiber *tf = &fib;
+    tf->data = (Janet *) &stk; tf->frame = 10; tf->stackstart = 13; tf->stacktop = 13; tf->capacity = 13;
+    JanetFuncEnv *env = malloc(sizeof(JanetFuncEnv));
+    VF_ASSUME(env != NULL);
+    env->offset = (int32_t) vf_u32();
+    env->length = (int32_t) vf_u32();
+    VF_ASSUME(env->offset < 0 && env->offset > INT32_MIN && env->length >= 0);     /* what unmarshal_one_env leaves (part 0) */
+    env->as.fiber = tf;
+    int owner = -1;
 #if VF_OWNED
-    /* the fiber's frame really belongs to this environment and has the matching slot count: the valid case */
-    janet_stack_frame(tf->data + tf->frame)->env = env;
+    owner = (int) vf_range(0, 1);
+    if (owner == 0) stk.fa.env = env; else stk.fb.env = env;
 #endif
     int ok = janet_env_valid(env);
     if (ok) {
+#if VF_OWNED
         VF_WITNESS("environment accepted");
-        VF_ASSERT(VF_OWNED, "an environment the fiber does not own was accepted");
-        VF_ASSERT(env->offset == tf->frame && env->length == 2, "accepted environment does not name the owning frame");
-        VF_ASSERT(env->offset + env->length <= tf->capacity && env->offset + env->length <= tf->stacktop + JANET_FRAME_SIZE + 2, "accepted environment reaches outside the fiber stack");
+#endif
+        VF_ASSERT(owner >= 0, "an environment the fiber does not own was accepted");
+        VF_ASSERT(owner == 0 ? (env->offset == 4 && env->length == 2) : (env->offset == 10 && env->length == 3), "accepted environment does not name the owning frame");
+        VF_ASSERT(env->offset + env->length <= tf->capacity, "accepted environment reaches outside the fiber stack");
     } else {
         VF_WITNESS("environment rejected");
         VF_ASSERT(env->offset == 0 && env->length == 0 && env->as.values == NULL, "rejected environment is not empty");
     }
+#endif
 }
